@@ -456,9 +456,21 @@ Proof.
 Qed.
 Theorem eval_remove_axes n mask t t' y : remove_axes n mask t = SOk t' -> eval t' y = eval t (expand mask y).
 Proof.
-  unfold remove_axes. destruct (negb _); try discriminate. destruct (existsb _ mask); try discriminate.
+  unfold remove_axes. destruct (negb _); try discriminate.
   intros H; inversion H; subst. apply eval_ra_tree.
 Qed.
+Theorem remove_axes_total n mask t : length mask = n -> remove_axes n mask t = SOk (ra_tree mask t).
+Proof. intros <-. unfold remove_axes. rewrite Nat.eqb_refl. reflexivity. Qed.
+(* the code as found panicked on the slice that fixes every axis, where the restriction is the constant t(r) *)
+Theorem remove_axes_found_refuted :
+  exists n mask t, length mask = n /\ wf n t /\ remove_axes_found n mask t = SPanic.
+Proof.
+  exists 1%nat, [false], (compose (from_slice [Some 1]) (partial_relu 1 0)). repeat split.
+  apply wfb_spec. vm_compute. reflexivity.
+Qed.
+Theorem remove_axes_found_elsewhere n mask t : existsb (fun b => b) mask = true ->
+  remove_axes_found n mask t = remove_axes n mask t.
+Proof. intros H. unfold remove_axes_found, remove_axes. rewrite H. reflexivity. Qed.
 
 Lemma wf_sc_slice r : wf_aff (sc_slice r) /\ a_in (sc_slice r) = length r /\ outdim (sc_slice r) = length r.
 Proof.
@@ -502,4 +514,18 @@ Proof.
   destruct k as [|k]; cbn [nth] in H.
   - subst o. reflexivity.
   - destruct o as [w|]; cbn [embed]; [|destruct y]; cbn [nth]; eauto.
+Qed.
+
+(* ---------------------------------------------------------------- outcomes of from_poly *)
+Theorem from_poly_res_total P f g : a_in P = a_in f -> a_mat P <> [] ->
+  (forall g', g = Some g' -> a_in g' = a_in P) -> from_poly_res P f g = SOk (from_poly P f g).
+Proof.
+  intros H1 H2 H3. unfold from_poly_res. rewrite H1, Nat.eqb_refl. cbn [negb].
+  destruct (a_mat P) as [|r A]; [congruence|]. cbn [length Nat.eqb].
+  destruct g as [g'|]; auto. rewrite <- H1, (H3 g' eq_refl), Nat.eqb_refl. reflexivity.
+Qed.
+Theorem from_poly_res_inv P f g t : from_poly_res P f g = SOk t -> t = from_poly P f g.
+Proof.
+  unfold from_poly_res. destruct (negb _); try discriminate. destruct (Nat.eqb _ 0); try discriminate.
+  destruct (match g with Some g' => _ | None => false end); try discriminate. intros H; inversion H; reflexivity.
 Qed.
